@@ -615,11 +615,9 @@ func c03DecTie(c *Ctx, s *c03Set, ct *rlwe.Ciphertext, lpt int, useNew bool) {
 		lpt = lc
 	}
 	if deg := len(ct.Value) - 1; deg&7 == 7 && !ct.IsNTT {
-		// Decrypt skips its final Reduce when Degree()&7 == 7; with a ciphertext outside the NTT domain the
-		// accumulator (NTTLazy outputs, < 2q) then enters INTT unreduced and coefficients come out wrong.
-		// Not tied (the model has no lazy NTT); checked against the NTT-domain path instead.
+		// degree 7 mod 8 outside the NTT domain: the final Reduce of Decrypt matters (fix C03-6); besides the
+		// tie, cross-check against the NTT-domain path.
 		c03ProbeDecryptDeg7(c, s, ct)
-		return
 	}
 	line := fmt.Sprintf("dec %s lc=%d lpt=%d ntt=%d mont=%d meta=%s ct=%s %s", s.hdr, lc, lpt, c03B2i(ct.IsNTT), c03B2i(ct.IsMontgomery),
 		c03MetaStr(ct.MetaData), strings.Join(parts, "|"), c03SkTok(s, s.sk))
